@@ -696,3 +696,83 @@ def sharederr(repo):
         raise AnalysisError("symbol_resolver: no function builds notes from a list of candidate locations")
     res.analysed = sorted(m.rel for m in mods)
     return res
+
+
+FOUNDLOC_REVIEWED = {
+    ("compiler/front_end/type_check.py", "_type_check_passed_parameters", "referenced_type"):
+        "found through the reference of an atomic type: a TypeDefinition, which always carries the location of its definition "
+        "(inline types keep the location of the field that declares them)",
+    ("compiler/front_end/dependency_checker.py", "_find_module_dependency_cycles", "module"):
+        "a node of the import graph: an ir_data.Module, whose location is set by module_ir",
+}
+
+
+def foundloc(repo):
+    """R-FOUNDLOC (C16): a message that points at an object looked up by canonical name (`ir_util.find_object*`) uses that
+    object's `source_location`.  Objects the compiler generated have none -- `$size_in_bytes`, the aliases of the members
+    of an anonymous `bits` (only their name has one) -- and `error.location_or_default` then prints `file:0:0` with an
+    unrelated source line.  Every such location is therefore either (a) a fallback chain (`x.source_location or
+    x.name.source_location or <parent>.source_location`), (b) used where the kind of the object is established on the
+    path (`isinstance(x, TypeDefinition | RuntimeParameter | EnumValue)`, `not field_is_virtual(x)`: kinds the user
+    always writes), or (c) a reviewed site, with the reason in the table."""
+    res = RuleResult("R-FOUNDLOC")
+    written_kinds = ("TypeDefinition", "RuntimeParameter", "EnumValue", "Module")
+    seen_reviewed = set()
+    for m in repo.compile_path_modules():
+        if not m.rel.startswith("compiler/front_end/"):
+            continue
+        for f in m.funcs.values():
+            found = set()
+            for n in walk_no_nested_funcs(f.node):
+                if isinstance(n, ast.Assign) and isinstance(n.value, ast.Call) and (call_name(n.value) or "").split(".")[-1] in (
+                        "find_object", "find_object_or_none", "find_parent_object"):
+                    found |= {t.id for t in n.targets if isinstance(t, ast.Name)}
+            if not found:
+                continue
+            for c in walk_no_nested_funcs(f.node):
+                if not (isinstance(c, ast.Call) and (call_name(c) or "") in ("error.error", "error.note", "error.warn") and len(c.args) >= 2):
+                    continue
+                loc = c.args[1]
+                vs = {x.value.id for x in ast.walk(loc) if isinstance(x, ast.Attribute) and x.attr == "source_location"
+                      and isinstance(x.value, ast.Name) and x.value.id in found}
+                # a local that holds the location
+                if isinstance(loc, ast.Name):
+                    lname = loc.id
+                    for n in walk_no_nested_funcs(f.node):
+                        if isinstance(n, ast.Assign) and len(n.targets) == 1 and isinstance(n.targets[0], ast.Name) and n.targets[0].id == lname:
+                            loc = n.value
+                            vs = {x.value.id for x in ast.walk(loc) if isinstance(x, ast.Attribute) and x.attr == "source_location"
+                                  and isinstance(x.value, ast.Name) and x.value.id in found}
+                for v in sorted(vs):
+                    res.instances += 1
+                    if isinstance(loc, ast.BoolOp) and isinstance(loc.op, ast.Or) and len(loc.values) >= 2:
+                        continue
+                    # guards on the path
+                    ok = False
+                    node = c
+                    while node is not None and node is not f.node:
+                        parent = m.parent(node)
+                        if isinstance(parent, ast.If):
+                            t = ast.unparse(parent.test)
+                            in_body = any(node is st or node in ast.walk(st) for st in parent.body)
+                            if in_body and any(f"isinstance({v}, ir_data.{k})" in t for k in written_kinds):
+                                ok = True
+                            if in_body and f"not ir_util.field_is_virtual({v})" in t:
+                                ok = True
+                        node = parent
+                    key = (m.rel, f.qualname, v)
+                    if not ok and key in FOUNDLOC_REVIEWED:
+                        seen_reviewed.add(key)
+                        res.notes.append(f"{m.rel}:{f.qualname}:{v} -- {FOUNDLOC_REVIEWED[key]}")
+                        ok = True
+                    if not ok:
+                        res.add(f"{m.rel}|{f.qualname}|{v}", f"{f.qualname} reports at `{ast.unparse(c.args[1])[:60]}`: `{v}` was looked up by name and "
+                                "may be a generated field (`$size_in_bytes`, an alias of an anonymous `bits` member) without a "
+                                "location; the message is then printed at `file:0:0` with the last line of the file as its snippet",
+                                m.rel, c.lineno, f.qualname)
+    stale = set(FOUNDLOC_REVIEWED) - seen_reviewed
+    for key in sorted(stale):
+        raise AnalysisError(f"R-FOUNDLOC: reviewed site {key} no longer exists")
+    if res.instances < 5 and not res.findings:
+        raise AnalysisError(f"only {res.instances} messages located at looked-up objects")
+    return res
